@@ -42,7 +42,7 @@ def pure_chef(pf, recipe_fn, new_names, kept):
         l.data = []
         for d in lev.data:
             src = np.array(d, order='F')
-            new = np.asarray(recipe_fn(fidx, src.copy(order='F')))
+            new = np.asarray(recipe_fn(fidx, src.copy(order='F')), dtype='float64')
             if new.ndim < 4:
                 new = new[..., np.newaxis]
             l.data.append(np.asfortranarray(np.concatenate([src[..., keep_ids], new], axis=3) if keep_ids else new))
@@ -148,7 +148,7 @@ def run_case(seed):
             if model_ok:
                 mres = model.call('colander', [[v.encode() for v in variables], [limit], cur_msx])
         elif kind == 'chef':
-            rkind, ncomp, tmpl = rng.choice(c11.RECIPES)
+            rkind, ncomp, tmpl = c11.pick_recipe(rng, seed, hop)
             a, b = rng.choice(keys), rng.choice(keys)
             new_names = [f"ck{hop}_{rkind}_{i}" for i in range(ncomp)]
             src = tmpl.format(a=a, b=b, n0=new_names[0], n1=new_names[1] if ncomp > 1 else '', n2=new_names[2] if ncomp > 2 else '')
